@@ -386,6 +386,8 @@ func buildWorldHook(w *wWorld, hook func(i int, b *builtWorld) error) (*builtWor
 			var root githash.Hash
 			if e.Kind == "staging" {
 				ref = policy.PolicyStagingRef
+			}
+			if e.Kind == "staging" && e.Pol == nil {
 				root, _ = b.m.EmptyTree()
 			} else {
 				md, err := e.Pol.stateMetadata()
